@@ -553,6 +553,39 @@ example : ∀ l ∈ ["INCON\n".toList, "ab1 7         31.000000000e-01\n".toList
   · exact ⟨[], by decide, by decide⟩
 example : crlf "a\n\nb\n".toList = "a\r\n\r\nb\r\n".toList ∧ crOnly "a\n\nb\n".toList = "a\r\rb\r".toList := by decide
 
+/-! ### well-formedness: what is redundant, what is not -/
+
+/-- `BlockWF.name5` is not an independent hypothesis: a `Canonical` name has five characters -/
+theorem canonical_name_has_5 (n : Str) (h : Canonical n) : n.length = 5 := by
+  match n, h with
+  | [_, _, _, _, _], _ => rfl
+
+/-- `BlockWF` from its independent parts (no length hypothesis) -/
+theorem blockWF_of_canonical (b : Block Val) (hc : Canonical b.block)
+    (hv : validBlockname (unfixBlockname b.block) = .ok true)
+    (hplus : (unfixBlockname b.block).take 3 ≠ ['+', '+', '+'])
+    (hne : b.vars ≠ []) (hreal : ∀ x ∈ b.vars, IsReal x) (hpor : IsRealOrNone b.porosity)
+    (hseq : IsIntOrNone b.nseq) (hadd : IsIntOrNone b.nadd)
+    (hperm : ∀ k, b.permeability = some k → IsReal k.1 ∧ IsReal k.2.1 ∧ IsReal k.2.2) : BlockWF b :=
+  ⟨canonical_name_has_5 _ hc, hc, hv, hplus, hne, hreal, hpor, hseq, hadd, hperm⟩
+
+def exPlus : Incon Val := { exIncon with blocks := [{ exBlock with block := "+++ 1".toList }] }
+
+/-- `BlockWF.noplus` is NOT redundant: `+++ 1` is canonical and accepted by `valid_blockname`
+    (`'+'` is in the table of first characters), it is written, but the reader takes its record for
+    the `+++` marker that ends the block list: the block is lost -/
+theorem excluded_plus_name :
+    Canonical "+++ 1".toList ∧ validBlockname (unfixBlockname "+++ 1".toList) = .ok true ∧
+    (write theSpecs exPlus false).toOption.isSome = true ∧
+    (write theSpecs exPlus false >>= read .fortran theSpecs TOUGH2 none true).map (fun y => y.blocks.length) ≠ .ok 1 := by
+  refine ⟨by decide, by decide +kernel, by decide +kernel, by decide +kernel⟩
+
+example : BlockWF exBlock :=
+  blockWF_of_canonical exBlock (by decide) (by decide +kernel) (by decide) (by decide)
+    (by intro x hx; simp only [exBlock, List.mem_cons, List.not_mem_nil, or_false] at hx
+        rcases hx with rfl | rfl <;> exact ⟨_, rfl⟩)
+    (Or.inr ⟨_, rfl⟩) (Or.inl rfl) (Or.inr ⟨_, rfl⟩) (by intro k h; cases h)
+
 /-
   The core theorems work on the list of lines (`write` returns them, `read` takes them);
   `read_any_line_ends_partial` shows that the text of the file splits back into exactly these lines
